@@ -37,6 +37,17 @@ def step_requests(st, replies=None, si=None):
             items += [(cc, v) for cc, v in st[1] if cc == c]
     elif k == "reply" and replies is not None and si in replies:
         items = [(st[1], replies[si])]
+    elif k == "mixed":
+        order = []
+        for sub in st[1]:
+            if sub[0] in ("msg", "reply") and sub[1] not in order:
+                order.append(sub[1])
+        for c in order:
+            for sub in st[1]:
+                if sub[0] == "msg" and sub[1] == c:
+                    items.append((c, sub[2]))
+                elif sub[0] == "reply" and sub[1] == c and isinstance(replies, dict) and replies.get(("texts", si), {}).get((c, sub[2])) is not None:
+                    items.append((c, replies[("texts", si)][(c, sub[2])]))
     out = []
     for c, v in items:
         if isinstance(v, bytes):
@@ -575,8 +586,8 @@ def mon_c03(sc, res):
                     inflight[rid] = rec
                 elif is_id(rec["origin"]):
                     expect.append((c, rec["origin"], "error"))
-        # resolvers of this step
-        for rc, rr in replies_in:
+        # resolvers of this step, in the order the daemon dispatched them
+        def resolve_reply(rc, rr):
             rid = cget(rr, b"id")
             f = inflight.get(rid)
             if f is not None and f["owner"] == rc:
@@ -584,12 +595,44 @@ def mon_c03(sc, res):
                 if is_id(f["origin"]) and f["caller"] not in dead:
                     key = b"result" if has_member(rr, b"result") else b"error"
                     expect.append((f["caller"], f["origin"], (key, cget(rr, key))))
-        for t in itr.expired[si]:
+
+        def resolve_expiry(t):
             for rid in [r for r, f in inflight.items() if f["timer"] == t]:
                 f = inflight.pop(rid)
                 if is_id(f["origin"]) and f["caller"] not in dead:
                     expect.append((f["caller"], f["origin"], "error"))
-        closing = list(itr.closed[si])
+
+        def resolve_close(c):
+            for rid in [r for r, f in inflight.items() if f["owner"] == c or f["caller"] == c]:
+                f = inflight.pop(rid)
+                if f["owner"] == c and f["caller"] != c and f["caller"] not in dead and is_id(f["origin"]):
+                    expect.append((f["caller"], f["origin"], "error"))
+            dead.add(c)
+        if st[0] == "mixed":
+            order = []
+            for sub in st[1]:
+                h = ("t", sub[1]) if sub[0] == "timer" else (("c", sub[1]) if sub[0] != "advance" else None)
+                if h is not None and h not in order:
+                    order.append(h)
+            for h in order:
+                if h[0] == "t":
+                    if h[1] in itr.expired[si]:
+                        resolve_expiry(h[1])
+                else:
+                    for rc, rr in replies_in:
+                        if rc == h[1]:
+                            resolve_reply(rc, rr)
+                    if h[1] in itr.closed[si]:
+                        resolve_close(h[1])
+            for c in itr.closed[si]:
+                if c not in dead:
+                    resolve_close(c)
+        else:
+            for rc, rr in replies_in:
+                resolve_reply(rc, rr)
+            for t in itr.expired[si]:
+                resolve_expiry(t)
+        closing = [c for c in itr.closed[si] if c not in dead]
         for c in closing:
             for rid in [r for r, f in inflight.items() if f["owner"] == c or f["caller"] == c]:
                 f = inflight.pop(rid)
@@ -620,3 +663,100 @@ def mon_c03(sc, res):
             if len(sn["armed"]) != len(mine):
                 fails.append("step %d: %d timers armed for %d requests in flight" % (si, len(sn["armed"]), len(mine)))
     return fails[:6]
+
+
+# --------------------------------------------------------------------------- C05 (connection end)
+
+def _peer_lines(sn):
+    """addr -> (peer record without routes, elements {path: dict}, routes set)"""
+    peers = {}
+    for p in sn["peerlist"]:
+        peers[p["addr"]] = dict(p)
+    elems = {}
+    for e in sn["elems"]:
+        elems[e["path"]] = dict(e)
+    return peers, elems
+
+
+def mon_c05(sc, res):
+    """At every snapshot the daemon's state refers to live peers only; a close between two snapshots (with nothing else
+    in between) leaves every other peer's elements, fetches and in-flight requests exactly as they were."""
+    fails = []
+    itr = res["itr"]
+    log = res["log"]
+    snaps = {}
+    for sn in log.snaps:
+        if 0 <= sn["step"] < len(itr.smap):
+            snaps[itr.smap[sn["step"]]] = sn
+    addr2conn = {}
+    conn_addr = {}
+    dead = set()
+    prev = None      # (step index, snapshot) of the last quiesce
+    between = []
+    for si, st in enumerate(sc.steps):
+        for c, addr in itr.peers[si]:
+            addr2conn[addr] = c
+            conn_addr[c] = addr
+        for c in itr.closed[si]:
+            dead.add(c)
+        if st[0] != "quiesce":
+            between.append((si, st))
+            continue
+        sn = snaps.get(si)
+        if sn is None:
+            continue
+        live_addrs = set(p["addr"] for p in sn["peerlist"])
+        for c in dead:
+            if conn_addr.get(c) in live_addrs and not any(cc for cc, a in conn_addr.items() if a == conn_addr.get(c) and cc not in dead):
+                fails.append("step %d: peer of closed connection c%d is still in the peer list" % (si, c))
+        for e in sn["elems"]:
+            if e["owner"] not in live_addrs:
+                fails.append("step %d: element %s is owned by a peer that no longer exists" % (si, show(e["path"])))
+            if e["fetchers"] != "~":
+                for x in e["fetchers"].split(","):
+                    if x.split(":")[1] not in live_addrs:
+                        fails.append("step %d: element %s still lists a fetch of a departed peer" % (si, show(e["path"])))
+        # others untouched by a close that is alone between two snapshots
+        if prev is not None and len(between) == 1 and between[0][1][0] in ("eof", "rst", "err") and itr.closed[between[0][0]] == [between[0][1][1]]:
+            gone = conn_addr.get(between[0][1][1])
+            p0, e0 = _peer_lines(prev[1])
+            p1, e1 = _peer_lines(sn)
+            for addr, rec in p0.items():
+                if addr == gone:
+                    continue
+                if addr not in p1:
+                    fails.append("step %d: peer c%d vanished when c%d closed" % (si, addr2conn.get(addr, -1), between[0][1][1]))
+                    continue
+                a, b = dict(rec), dict(p1[addr])
+                # in-flight requests of the leaving peer routed to this one are dropped: compare the rest
+                if a.pop("routes") != b.pop("routes"):
+                    ra = set(prev[1]["peerlist"][[p["addr"] for p in prev[1]["peerlist"]].index(addr)]["routes"].split(","))
+                    rb = set(p1[addr]["routes"].split(","))
+                    lost = ra - rb - {"~"}
+                    tok = (gone or "").encode().hex()[:-2]   # the routed id embeds the requester's address (cut by one character)
+                    if any(tok not in x for x in lost) or (rb - ra - {"~"}):
+                        fails.append("step %d: routing table of c%d changed beyond the leaving peer's own requests when c%d closed" % (
+                            si, addr2conn.get(addr, -1), between[0][1][1]))
+                if a != b:
+                    fails.append("step %d: peer c%d changed when c%d closed: %s -> %s" % (si, addr2conn.get(addr, -1), between[0][1][1], a, b))
+            for path, rec in e0.items():
+                if rec["owner"] == gone:
+                    if path in e1 and e1[path]["owner"] == gone:
+                        fails.append("step %d: element %s of the closed connection survived" % (si, show(path)))
+                    continue
+                if path not in e1:
+                    fails.append("step %d: element %s of another peer vanished when c%d closed" % (si, show(path), between[0][1][1]))
+                    continue
+                a, b = dict(rec), dict(e1[path])
+                fa = [x for x in a.pop("fetchers").split(",") if x != "~" and x.split(":")[1] != gone]
+                fb = [x for x in b.pop("fetchers").split(",") if x != "~"]
+                a.pop("tablesize"), b.pop("tablesize")
+                if a != b or sorted(x.split(":", 1)[1] for x in fa) != sorted(x.split(":", 1)[1] for x in fb):
+                    fails.append("step %d: element %s of another peer changed when c%d closed" % (si, show(path), between[0][1][1]))
+        prev = (si, sn)
+        between = []
+    return fails[:6]
+
+
+def mon_c05_all(sc, res):
+    return mon_c05(sc, res) + mon_c01(sc, res) + mon_c03(sc, res)
